@@ -4,7 +4,7 @@ from __future__ import annotations
 from .common import *   # noqa: F401,F403
 from . import linegen as lg
 
-LEAF = ['Leaf_chart', 'Leaf_fromfile']      # translated functions this property's model relies on (Tie/<name>.v)
+LEAF = ['Leaf_chart', 'Leaf_fromfile', 'Leaf_meta']      # translated functions this property's model relies on (Tie/<name>.v)
 RULE = ("[Song] bodies given to Metadata.from_chart_lines (and, for a good third of those that can stand in a file, also as the [Song] section of a whole chart through Chart.from_file, or written as a UTF-8 file and read by Chart.from_filepath): every singleton and all-but-one subset of the 23 optional fields (thorough) and random subsets, random permutations of the lines, "
         "string values containing quotes, '=', ' = ', other fields' names and whole other fields' lines, leading/trailing blanks inside the quotes, non-ASCII; integers of 1-19 digits "
         "(beyond 2^53), quoted and unquoted, non-ASCII decimal digits; Player2 bass/rhythm/other; unknown fields; duplicate fields; missing Resolution; judged against the documented "
